@@ -16,6 +16,13 @@ func init() {
 		if fn == nil {
 			fn = prog.GrammarSSA.Func(name)
 		}
+		if fn == nil && strings.Contains(name, ".") {
+			parts := strings.SplitN(name, ".", 2)
+			fn = prog.Method(prog.BexprSSA, parts[0], parts[1], true)
+			if fn == nil {
+				fn = prog.Method(prog.GrammarSSA, parts[0], parts[1], true)
+			}
+		}
 		if fn == nil {
 			fmt.Println("no such function", name)
 			return
